@@ -164,10 +164,13 @@ func checkEndpointName(name string) error {
 }
 
 func (s *Server) unmap(name string, ep *endpointClient) {
+	verifPointN("server.unmap-enter", name, ep)
 	s.mu.Lock()
 	defer s.mu.Unlock()
+	verifPointN("server.unmap-try", name, ep)
 	if s.endpoints[name] == ep {
 		log.Printf("unmap endpoint %q", name)
+		verifPointN("server.unmap-del", name, ep)
 		delete(s.endpoints, name)
 	}
 }
@@ -193,6 +196,7 @@ func (s *Server) upgrade(c *aries.C, name string, opt *Options) (
 	defer s.mu.Unlock()
 	if old, found := s.endpoints[name]; found {
 		log.Printf("kick off old endpoint for %q", name)
+		verifPointN("server.kick", name, old)
 		delete(s.endpoints, name)
 
 		// Send background to kill gracefully.
@@ -205,6 +209,7 @@ func (s *Server) upgrade(c *aries.C, name string, opt *Options) (
 		}(name, old)
 	}
 	log.Printf("map endpoint %q", name)
+	verifPointN("server.map", name, ep)
 	s.endpoints[name] = ep
 	return ep, nil
 }
